@@ -6,6 +6,7 @@ A *case* is a JSON-serialisable dict
                 "format": [keys] | None, "calls": [[raw value strings, trailing ones may be dropped]]}]}
 so that replay never depends on the PRNG.  The text written is exactly what the case says.
 """
+import os
 
 FORMAT_DEFS = {
     "GT": '##FORMAT=<ID=GT,Number=1,Type=String,Description="Genotype">',
@@ -35,6 +36,8 @@ def default_header(case):
         out.append(f"##contig=<ID={n},length={ln}>")
     if case.get("phasing_header"):
         out.append("##phasing=partial")
+    if case.get("phasing_header") == 2:
+        out.append("##phasing=none")          # a second line with the same key (F61)
     out += list(FORMAT_DEFS.values()) + INFO_DEFS
     return out
 
@@ -70,8 +73,9 @@ def vcf_text(case):
     for r in case["records"]:
         line = list(r["fixed"])
         if case["samples"] and r["format"] is not None:
-            line.append(":".join(r["format"]))
-            line += [":".join(c) for c in r["calls"]]
+            # a FORMAT column without any key is spelled "." (htslib's own spelling after every key was deleted)
+            line.append(":".join(r["format"]) or ".")
+            line += [":".join(c) or "." for c in r["calls"]]
         out.append("\t".join(line))
     return "\n".join(out) + "\n"
 
@@ -236,7 +240,11 @@ def gen_case(rng, scale=1, exotic=True, max_records=14):
                     vals = vals[:rng.randrange(1, len(vals))]      # trailing fields dropped (legal VCF)
                 calls.append(vals)
             records.append({"fixed": fixed, "format": fmt, "calls": calls})
-    case = {"contigs": contigs, "samples": samples, "phasing_header": rng.random() < 0.3, "records": records,
+    x = rng.random()                       # (one draw, as before: C12 reuses this generator)
+    phasing, second = x < 0.3, x < 0.15
+    if phasing and second:      # F61 (= F76, fixed in /repo 3f23520): several ##phasing lines
+        phasing = 2
+    case = {"contigs": contigs, "samples": samples, "phasing_header": phasing, "records": records,
             "exotic": exotic}
     if exotic and rng.random() < 0.6:
         case["header_lines"] = gen_header(rng, case)
